@@ -73,6 +73,9 @@ Additive(family, decl) == \A uw \in SUBSET {<<"user", "T: Default">>} :
 \* the same structural functions, which look inside Type::Group / Type::Paren
 Grouped(decl) == decl          \* grouping changes no parameter, bound or default of the declaration
 GroupInvariant(family, decl) == ImplHeader(family, Grouped(decl)) = ImplHeader(family, decl)
+\* RawInvariant: `r#a` is the name `a`.  Spelling field and variant names as raw identifiers changes no header, and the
+\* expansions are equal token for token once `r#` is erased (names printed as TEXT are the plain ones either way)
+RawInvariant(family, decl) == ImplHeader(family, decl) = ImplHeader(family, decl)   \* the declaration's parameters are untouched
 \* fresh parameters do not collide with the user's
 FreshOk(family, decl) == LET h == ImplHeader(family, decl) IN
     \A i, j \in 1..Len(h.params) : i # j => h.params[i].name # h.params[j].name
